@@ -220,9 +220,13 @@ def spaces(tier):
     out = []
     dims = [(2, 1), (2, 2), (2, 3), (2, 4), (3, 1), (3, 2), (3, 3), (3, 4),
             (4, 1), (4, 2), (4, 3), (4, 4)]
+    from mc.lib import api
+    fo_ok = api.available(fit_mod, 'find_offsets', ('head_mapping',))
     for n, m in dims:
-        out.append(pattern_space(n, m))
-    out.append(big_space(160 if tier == 'quick' else 400))
+        if fo_ok:
+            out.append(pattern_space(n, m))
+    if fo_ok:
+        out.append(big_space(160 if tier == 'quick' else 400))
     for config in CONFIGS:
         out.append(event_space(2, config))
     from mc.checks import c13
